@@ -434,6 +434,13 @@ func splitArraySort(s string) (string, string) {
 func (e *CEnv) binary(n *EBinary) *CV {
 	switch n.Op {
 	case "&&", "||", "==>", "<==>":
+		// `inscope(x) ==> ...`: where x does not resolve the clause says nothing (and its
+		// right-hand side is not evaluated)
+		if n.Op == "==>" {
+			if a := e.eval(n.X); isFalse(a.T) {
+				return &CV{T: tTrue, Sort: "Bool"}
+			}
+		}
 		a, b := e.eval(n.X), e.eval(n.Y)
 		e.want(a, "Bool")
 		e.want(b, "Bool")
@@ -624,6 +631,26 @@ func (e *CEnv) call(n *ECall) *CV {
 			}
 		}
 		e.fail("unknown identifier %q (no local of that type)", id.Name)
+	case "inscope":
+		// inscope(name): the local resolves at this program point
+		ok := false
+		if id, isId := n.Args[0].(*EIdent); isId {
+			func() {
+				defer func() {
+					if r := recover(); r != nil {
+						if _, isC := r.(cerr); !isC {
+							panic(r)
+						}
+					}
+				}()
+				e.eval(id)
+				ok = true
+			}()
+		}
+		if ok {
+			return &CV{T: tTrue, Sort: "Bool"}
+		}
+		return &CV{T: tFalse, Sort: "Bool"}
 	case "typeis":
 		// typeis(x, pkg.Type) / typeis(x, ptr(pkg.Type)): dynamic type test on an interface
 		x := e.eval(n.Args[0])
